@@ -105,6 +105,19 @@ func pkgDirAndPattern(pkg string) (dir, pattern string) {
 }
 
 // runNative executes cases natively in pkg and returns results by case id.
+// nativeScheduleRetries is the number of additional native replays of a
+// violation whose model contains scheduler decisions.
+const nativeScheduleRetries = 24
+
+func dependsOnSchedule(model map[string]uint64) bool {
+	for k := range model {
+		if strings.HasPrefix(k, "sched!") || strings.HasPrefix(k, "select!") {
+			return true
+		}
+	}
+	return false
+}
+
 func runNative(workDir, pkg string, cases []replayCase) (map[string]nativeResult, string, error) {
 	os.MkdirAll(workDir, 0o755)
 	_, files := buildOverlay()
@@ -401,6 +414,14 @@ func check(id, tier string, seed int64, workers int, verbose bool, only string, 
 		}
 		for k, vk := range vkeys {
 			cases = append(cases, replayCase{ID: fmt.Sprintf("v%d", k), Harness: r.Func, Args: args, Model: distinct[vk].Model})
+			if dependsOnSchedule(distinct[vk].Model) {
+				// the native run is under the Go scheduler, which the model's
+				// schedule variables do not steer: the same inputs are replayed
+				// several times and any native failure of the assertion counts
+				for j := 0; j < nativeScheduleRetries; j++ {
+					cases = append(cases, replayCase{ID: fmt.Sprintf("v%d.r%d", k, j), Harness: r.Func, Args: args, Model: distinct[vk].Model})
+				}
+			}
 		}
 		var nat map[string]nativeResult
 		if !noNative && len(cases) > 0 {
@@ -456,11 +477,21 @@ func check(id, tier string, seed int64, workers int, verbose bool, only string, 
 			reproduced := false
 			if nat != nil {
 				n := nat[fmt.Sprintf("v%d", k)]
-				switch v.Label {
-				case "uncaught panic":
-					reproduced = n.Panic != ""
-				default:
-					reproduced = contains(n.FailedLabels, v.Label)
+				tries := []nativeResult{n}
+				if dependsOnSchedule(v.Model) {
+					for j := 0; j < nativeScheduleRetries; j++ {
+						if nj, ok := nat[fmt.Sprintf("v%d.r%d", k, j)]; ok {
+							tries = append(tries, nj)
+						}
+					}
+				}
+				for _, nj := range tries {
+					switch v.Label {
+					case "uncaught panic":
+						reproduced = reproduced || nj.Panic != ""
+					default:
+						reproduced = reproduced || contains(nj.FailedLabels, v.Label)
+					}
 				}
 				if !reproduced && verbose {
 					fmt.Fprintf(os.Stderr, "violation %q [%s] did not reproduce natively: native=%+v\n  symbolic notes: %v\n  model: %v\n", v.Label, v.Disc, n, v.Notes, v.Model)
